@@ -674,6 +674,57 @@ func (env *SpecEnv) evalCall(x *Expr) Value {
 		a := env.eval(x.Args[0])
 		e.v.needPow2()
 		return Value{term: "(pow2 " + a.term + ")", typ: mathInt}
+	case "lastresult":
+		// lastresult(Callee): the result of this function's most recent call of Callee
+		// (declared with a 'lastresult Callee [resultN]' line); arbitrary before the first call
+		argc(1)
+		if x.Args[0].Op != "ident" {
+			env.errorf("lastresult() needs a callee name")
+		}
+		t, ok := e.lastResTypes[x.Args[0].Name]
+		if !ok {
+			env.errorf("lastresult(%s): no call of %s seen in this function (or no 'lastresult' declaration)", x.Args[0].Name, x.Args[0].Name)
+		}
+		return Value{term: e.ghostGet(env.cur, lastResultKey(x.Args[0].Name, e.u.sortOf(t))), typ: t}
+	case "selected":
+		// selected(ch): the most recent select of this function completed by receiving from ch
+		argc(1)
+		c := env.eval(x.Args[0])
+		return Value{term: "(= " + e.ghostGet(env.cur, ghostLastSel) + " " + c.term + ")", typ: boolT}
+	case "alternative":
+		// alternative(ch): in a send-site clause, the send is one case of a
+		// select that also receives from ch (or has a default case): it cannot
+		// block once ch is closed. False for a plain send.
+		argc(1)
+		c := env.eval(x.Args[0])
+		if !e.selActive {
+			return Value{term: "false", typ: boolT}
+		}
+		if e.selNonBlocking {
+			return Value{term: "true", typ: boolT}
+		}
+		var alts []string
+		for _, a := range e.selAlts {
+			alts = append(alts, "(= "+a+" "+c.term+")")
+		}
+		if len(alts) == 0 {
+			return Value{term: "false", typ: boolT}
+		}
+		if len(alts) == 1 {
+			return Value{term: alts[0], typ: boolT}
+		}
+		return Value{term: "(or " + strings.Join(alts, " ") + ")", typ: boolT}
+	case "cancels":
+		// cancels(f, ctx): calling the cancel function f cancels the context ctx
+		// (f was returned with ctx, or with an ancestor of ctx, by the context package)
+		argc(2)
+		f := env.eval(x.Args[0])
+		c := env.eval(x.Args[1])
+		if e.u.sortOf(c.typ) != sortIface || e.u.sortOf(f.typ) != sortInt {
+			env.errorf("cancels needs a cancel function and a context")
+		}
+		e.v.declFun("ctx_cancels", "(Int Iface) Bool")
+		return Value{term: "(ctx_cancels " + f.term + " " + c.term + ")", typ: boolT}
 	case "chancap":
 		// chancap(ch): the capacity the channel was made with
 		argc(1)
@@ -823,8 +874,8 @@ func (env *SpecEnv) evalCall(x *Expr) Value {
 		if x.Args[0].Op != "ident" {
 			env.errorf("calls() needs a callee name")
 		}
-		k := callCountKey(x.Args[0].Name)
 		a := env.eval(x.Args[1])
+		k := CallCount{Callee: x.Args[0].Name, Iface: e.u.sortOf(a.typ) == sortIface}.key()
 		return Value{term: sel(e.ghostGet(env.cur, k), a.term), typ: mathInt}
 	case "dqlen", "dqat":
 		// dqlen(p), dqat(p, i): the sequence held by the deque at pointer p
